@@ -26,7 +26,9 @@ func EvalHandlers(c *core.Ctx, line string) *core.Case {
 	if len(f) == 3 && f[0] == "dnsparser" {
 		msg := core.UnHex(f[2])
 		impl := ParserSeq(strings.Split(f[1], ","), msg)
-		return &core.Case{Line: line, Impl: impl, Trivial: len(msg) < 12,
+		// these lines tie the Lean model of golang.org/x/net/dns/dnsmessage (trusted base of the mDNS / NBNS
+		// theorems) to the real Parser, not /repo code: they do not count as distinct non-trivial cases
+		return &core.Case{Line: line, Impl: impl, Trivial: true,
 			Oracle: func() (string, string) {
 				if impl == "panic" || strings.HasPrefix(impl, "hang") {
 					return "dnsmessage.Parser " + impl + " on call sequence " + f[1], ""
@@ -51,6 +53,7 @@ func EvalHandlers(c *core.Ctx, line string) *core.Case {
 		p := core.UnHex(f[1])
 		impl, _, _, ok := dnsimpl.MDNS(p)
 		if !ok {
+			c.Why = "payload does not fit an Ethernet frame / is not parsed as mDNS by Session.Parse"
 			return nil
 		}
 		return &core.Case{Line: line, Impl: impl, Trivial: len(p) < 12,
@@ -100,10 +103,12 @@ func EvalHandlers(c *core.Ctx, line string) *core.Case {
 	case "ssdp.cc":
 		v := core.UnHex(f[1])
 		if string(v) != strings.TrimSpace(string(v)) {
+			c.Why = "header value with leading / trailing space (net/http trims it: outside the ssdp.cc domain)"
 			return nil
 		}
 		for _, ch := range v {
 			if ch < 0x20 || ch >= 0x7f {
+				c.Why = "header value with control / non-ASCII octets (outside the ssdp.cc domain)"
 				return nil
 			}
 		}
@@ -113,9 +118,8 @@ func EvalHandlers(c *core.Ctx, line string) *core.Case {
 		if kind == "ok" {
 			impl = "ok " + strconv.FormatInt(secs, 10)
 		}
-		if kind == "err" {
-			return nil
-		}
+		// an ssdp:alive NOTIFY with a printable CACHE-CONTROL value is never an error for the model:
+		// "err" stays in the case and disagrees with it (it used to be dropped silently)
 		return &core.Case{Line: line, Impl: impl,
 			Cmp: func(impl, model string) bool {
 				return model == "ok big" && strings.HasPrefix(impl, "ok ") || impl == model
@@ -291,7 +295,7 @@ func nbnsOracle(p []byte, impl string) (string, string) {
 // driver replays the same sequence): Q, SQ, SAQ, AH/NH/XH (Answer/Authority/Additional header),
 // SA/SN/SX (skips), A, AAAA, PTR, SRV, OPT, TXT, UNK (typed resources).
 func ParserSeq(ops []string, msg []byte) string {
-	return dnsimpl.Guard(func() string {
+	return dnsimpl.GuardOp("dnsparser", func() string {
 		var p dnsmessage.Parser
 		h, err := p.Start(dnsimpl.Exact(msg))
 		if err != nil {
